@@ -21,7 +21,8 @@ import ApiFu.C13.Model
 namespace ApiFu.C13
 
 /-- Selection trees in first-child / next-sibling form (structural recursion without nested lists).
-    `tag` is the field name for introspection selections; for `walk`/`exec` it is `field` (with
+    `tag` is the field name for introspection selections (`arg` is the name for `__type`, and
+    `"true"` for `fields` / `enumValues` asked with `includeDeprecated: true`); for `walk`/`exec` it is `field` (with
     `arg` the field name), `on` (with `arg` the type condition), `group` (an inline fragment without
     type condition) or `typename`. -/
 inductive Sels where
@@ -31,6 +32,7 @@ inductive Sels where
 
 inductive Json where
   | null
+  | bool (b : Bool)
   | str (s : String)
   | arr (xs : List Json)
   | obj (kvs : List (String × Json))
@@ -83,11 +85,11 @@ def evalHead (v : View) (tag arg : String) (k : Node → List (String × Json)) 
       (match v.kindOf p with
        | some kd => .str (kindName kd)
        | none => .null)
-    else if tag == "fields" then optArr (fun s => .obj (k (.field s))) (v.fieldsListing p)
+    else if tag == "fields" then optArr (fun s => .obj (k (.field s))) (v.fieldsListing (arg == "true") p)
     else if tag == "interfaces" then optArr (fun i => .obj (k (.ty (.named i)))) (v.interfacesOf p)
     else if tag == "possibleTypes" then optArr (fun i => .obj (k (.ty (.named i)))) (v.possibleTypes p)
     else if tag == "inputFields" then optArr (fun a => .obj (k (.input a))) (v.inputFields p)
-    else if tag == "enumValues" then optArr (fun e => .obj (k (.enumv e))) (v.enumValues p)
+    else if tag == "enumValues" then optArr (fun e => .obj (k (.enumv e))) (v.enumValues (arg == "true") p)
     else .null
   | .ty (.list t) =>
     if tag == "kind" then .str "LIST"
@@ -99,6 +101,7 @@ def evalHead (v : View) (tag arg : String) (k : Node → List (String × Json)) 
     else .null
   | .field s =>
     if tag == "name" then .str s.name
+    else if tag == "isDeprecated" then .bool s.deprecated
     else if tag == "type" then .obj (k (.ty s.ty))
     else if tag == "args" then .arr (s.args.map fun a => .obj (k (.input a)))
     else .null
@@ -205,6 +208,7 @@ def parseSels : Sexp → Option Sels
 
 partial def Json.render : Json → String
   | .null => "null"
+  | .bool b => if b then "true" else "false"
   | .str s => Sexp.quote s
   | .arr xs => "[" ++ ",".intercalate (xs.map Json.render) ++ "]"
   | .obj kvs => "{" ++ ",".intercalate (kvs.map fun (k, x) => Sexp.quote k ++ ":" ++ x.render) ++ "}"
